@@ -17,7 +17,7 @@ PROPERTY = "C18"
 WHO = b"V <v@v>"
 CONT = [b"", b"hello\n", b"HELLO\n", b"a longer content\n"]
 # entry kinds: (mode, payload)  payload = blob content or symlink target
-KINDS = [None, (0o100644, 1), (0o100755, 1), (0o120000, b"target"), (0o100644, 0), (0o100644, 3)]
+KINDS = [None, (0o100644, 1), (0o100755, 1), (0o120000, b"target"), (0o100644, 0), (0o100644, 3), (0o120000, b"d")]
 PATHS = [b"f", b"d/g", b"n\xff\xfe", b"d/h"]
 
 
@@ -105,6 +105,9 @@ def h_checkout_restage(eng, first=None):
         eng.prove(_scan(d) == _expect_disk(L), "files, symlink targets and executable bits match the tree after checkout")
         st = _status(r)
         eng.prove(st == ({"add": [], "delete": [], "modify": []}, [], []), f"status is clean right after checkout (got {st})")
+        sn = porcelain.status(r)                     # default ("normal") untracked mode
+        eng.prove(not sn.untracked and not sn.unstaged and not any(sn.staged.values()),
+                  f"status in its default mode is clean right after checkout (got {sn})")
         porcelain.add(r, paths=[os.path.join(d, os.fsdecode(p)) for p in L])
         idx = r.open_index()
         eng.prove(idx.commit(r.object_store) == tid, "staging everything reproduces the tree id")
@@ -119,6 +122,11 @@ def h_switch(eng, first=None, second=None):
     paths = PATHS[:3]
     L1 = _listing(eng, "a", 4, paths, first=first)
     L2 = _listing(eng, "b", 4, paths, first=second)
+    # file <-> directory replacements: in either tree the directory d (holding d/g) may instead be a regular file d
+    for L, tag in ((L1, "a_d_is_file"), (L2, "b_d_is_file")):
+        if bool(eng.bool(tag)):
+            L.pop(b"d/g", None)
+            L[b"d"] = KINDS[5]
     eng.assume(len(L1) > 0 and len(L2) > 0)
     d = scratch("c18s")
     try:
@@ -146,7 +154,7 @@ EDITS = ["modify_same_size", "modify_other_size", "chmod", "delete", "add_untrac
 def h_edits(eng, e1=0):
     """after one or two edits of the work tree / index, status reports exactly the paths that differ between HEAD,
     index and working directory (reference three-way comparison)"""
-    L = {b"f": KINDS[1], b"d/g": KINDS[eng.choice("g_kind", 3) + 1]}
+    L = {b"f": KINDS[1], b"d/g": KINDS[eng.choice("g_kind", 3) + 1], b"n\xff\xfe": KINDS[1]}
     d = scratch("c18e")
     try:
         r = Repo.init(d)
@@ -157,7 +165,7 @@ def h_edits(eng, e1=0):
         porcelain.reset(r, "hard", cid)
         head = _expect_disk(L)
         seq = [EDITS[e1], EDITS[eng.choice("edit2", len(EDITS))]] if eng.bool("two_edits") else [EDITS[e1]]
-        target = [b"f", b"d/g"][eng.choice("target", 2)]
+        target = [b"f", b"d/g", b"n\xff\xfe"][eng.choice("target", 3)]
         full = os.path.join(os.fsencode(d), target)
         for ed in seq:
             if ed == "modify_same_size":
@@ -255,17 +263,19 @@ def checks(tier):
     return [
         KCheck("C18a.checkout_restage", h_checkout_restage, parts=[{"first": k} for k in range(len(KINDS))], encoded=enc,
                bounds="every tree over the paths {f, d/g, a non-UTF-8 name, d/h}, each absent or a regular file, executable, "
-                      "symlink, empty file or longer file; real work tree on /dev/shm",
+                      "dangling symlink, symlink to the directory d, empty file or longer file; status checked in modes all and "
+                      "normal; real work tree on /dev/shm",
                outside="large files; line-ending conversion (excluded by the property); more paths", tiers=q),
         KCheck("C18b.switch", h_switch, parts=[{"first": a, "second": b} for a in range(4) for b in range(4)], encoded=enc,
                bounds="every pair of trees over {f, d/g, non-UTF-8 name} with entries absent / file / executable / symlink "
-                      "(mode-only changes with the same blob, type changes, additions and removals)",
-               outside="file <-> directory replacements; dirty work trees before the switch", tiers=q),
+                      "(mode-only changes with the same blob, type changes, additions and removals), and in either tree the "
+                      "directory d may instead be a regular file d (file <-> directory replacements)",
+               outside="dirty work trees before the switch", tiers=q),
         KCheck("C18c.status_after_edits", h_edits, parts=[{"e1": k} for k in range(len(EDITS))], encoded=enc,
-               bounds="HEAD = {f, d/g (file, executable or symlink)}; one or two edits on one target path from {modify same size, "
+               bounds="HEAD = {f, d/g (file, executable or symlink), a non-UTF-8 name}; one or two edits on one target path from {modify same size, "
                       "modify other size, chmod, delete, add untracked, replace by symlink, stage, unstage, rm --cached}; every "
                       "edit gets a distinct timestamp",
-               outside="file <-> directory replacements; racy timestamps (excluded by assumption); agreement with git status beyond "
+               outside="racy timestamps (excluded by assumption); agreement with git status beyond "
                        "the reference three-way comparison", tiers=q),
     ]
 
